@@ -124,13 +124,9 @@ fn oracle(profile: &Profile, c: &Case) -> Verdict {
                     second.push((ids[i], built.inputs[i].1.to_value()));
                 }
             }
-            // inputs that partial_run did not return but that were supplied in the
-            // first call are supplied again (they are the caller's to keep)
-            for i in 0..n {
-                if (mask >> i) & 1 == 1 && !second.iter().any(|(id, _)| *id == ids[i]) {
-                    second.push((ids[i], built.inputs[i].1.to_value()));
-                }
-            }
+            // The statement: "the values returned by partial_run together with the
+            // REMAINING inputs". Inputs of the first call are not supplied again:
+            // if a pruned operator still needs one, partial_run must return it.
             let got = match vcore::catch(|| run_ids(&model, second, &out_ids)) {
                 Ok(Ok(g)) => g,
                 Ok(Err(e)) => {
